@@ -27,7 +27,7 @@ def load_ms(o):
     jitter_ms (largest overshoot of a goroutine sleeping 5 ms: wake-up latency) and 20 ms per unit of cpu_slowdown - 1
     (wall / CPU time of a thread burning 2 ms of CPU: the scheduler serves sleepers promptly even when CPU-bound work --
     TLS, JSON, 2 MB bodies -- crawls, so wake-up latency alone underestimates starvation).  ~0-3 on a quiet machine."""
-    return max(o.get("jitter_ms") or 0, 20.0 * max(0.0, (o.get("cpu_slowdown") or 1.0) - 1.0))
+    return max(o.get("jitter_ms") or 0, min(200.0, 20.0 * max(0.0, (o.get("cpu_slowdown") or 1.0) - 1.0)))
 
 
 def jitter_slack(o):
@@ -35,7 +35,7 @@ def jitter_slack(o):
     has a handful of such wake-ups (timer, netpoll, result hand-over), so the duration comparison with the MODEL grants
     three of them on top of the fixed slack -- nothing on a quiet machine, the starvation delay on a loaded one.  The
     property's own bound keeps its fixed slack."""
-    return int(3 * min(load_ms(o), 300))
+    return int(3 * min(o.get("jitter_ms") or 0, 300))
 CODES = {1: "outcome class differs from the model", 2: "the peer received other bytes than the model's greeting",
          3: "the record's address/port/version differ", 4: "Scan took longer than the model's logical duration + slack",
          105: "(info) Scan returned earlier than the model's logical duration"}
